@@ -182,6 +182,26 @@ reg(
     "DESIGN.md 5/C14",
 )
 
+reg(
+    "C07",
+    "bounded exhaustive enumeration of label matrices x the five candidates/annotators specification modes (all index subsets, all boolean availability matrices, feature rows) x batch sizes x annotators-per-sample, tie tapes; reference model of available pairs; lasso detection (sys.settrace) on the annotator-assignment loop",
+    "Every multi-annotator query of the 3x2 grid is executed on the real SingleAnnotatorWrapper / IntervalEstimationThreshold and "
+    "judged against the docstring semantics of available pairs (shape, distinctness, availability, count, NaN layout, annotators per "
+    "sample); termination is decided by detecting a repeated state of the deterministic assignment loop plus a time horizon.",
+    "3 samples x 2 annotators; IntervalEstimationThreshold is judged only inside its documented domain (all or no annotators "
+    "available per candidate sample); A_perf given (ties by tape) or seeded.",
+    "DESIGN.md 5/C07",
+)
+reg(
+    "C20",
+    "bounded exhaustive paired executions wrapped vs unwrapped: all labelings x candidate modes x n_jobs for the parallel wrapper; every drawable sub-sample (choice tape) x max_candidates x exclude flag for the sub-sampling wrapper with an independent reference call of the inner strategy; sample-order comparison for the single-annotator wrapper",
+    "The wrapper and the wrapped strategy are executed side by side under the same tape for every case of the grid; for the "
+    "sub-sampling wrapper the choice tape enumerates every subset it can draw, and size, index space, -inf/NaN layout and the inner "
+    "utilities on that subset are checked; all subsets of the documented size must be reachable.",
+    POOL_NOTE + " joblib threading backend.",
+    "DESIGN.md 5/C20",
+)
+
 
 def main():
     props = [json.loads(l) for l in open(os.path.join(HOME, "properties.jsonl"))]
